@@ -12,7 +12,7 @@ fn main() {
         if let Some(o) = s.cx.only_hist {
             h = o;
         }
-        match h % 17 {
+        match h % 19 {
             0 => s.map_case::<u32, u32, 0, 0, 3, 1>(h),
             1 => s.map_case::<u32, u32, 1, 1, 4, 0>(h),
             2 => s.map_case::<u32, u32, 4, 7, 2, 3>(h),
@@ -29,6 +29,8 @@ fn main() {
             13 => s.set_case::<engines::serdeeng::Zs, 2, 3, 1>(h),
             14 => s.map_case::<engines::serdeeng::Zs, engines::serdeeng::Zs, 3, 3, 1, 4>(h),
             15 => s.map_case::<engines::serdeeng::Zs, u32, 2, 2, 1, 3>(h),
+            16 => s.set_case::<engines::serdeeng::Tri, 3, 4, 2>(h),
+            17 => s.map_case::<engines::serdeeng::Tri, u8, 2, 3, 2, 5>(h),
             _ => s.set_case::<u32, 1, 1, 5>(h),
         }
         s.cx.rep.histories += 1;
